@@ -2,6 +2,7 @@ package main
 
 import (
 	"context"
+	"encoding/binary"
 	"fmt"
 	"math"
 	"runtime"
@@ -199,6 +200,24 @@ func tracedMine(ver string, workers int, data []byte, target float64, cancelAfte
 		result = "panic"
 	case err == nil:
 		result = fmt.Sprintf("%d", nonce)
+		// whatever the interleaving, a returned nonce must meet the target (C11 / C12 under concurrency)
+		msg := make([]byte, len(data)+8)
+		copy(msg, data)
+		binary.LittleEndian.PutUint64(msg[len(data):], nonce)
+		switch ver {
+		case "v1":
+			if sc := pow.Score(msg); !(sc >= target) {
+				result = fmt.Sprintf("error:low-score nonce=%d score=%v target=%v", nonce, sc, target)
+			}
+		case "v2exact":
+			if sc := powv2.Score(msg); sc < v2Target {
+				result = fmt.Sprintf("error:low-score nonce=%d score=%d target=%d", nonce, sc, v2Target)
+			}
+		default:
+			if sc := powv2.Score(msg); sc < uint64(target) {
+				result = fmt.Sprintf("error:low-score nonce=%d score=%d target=%d", nonce, sc, uint64(target))
+			}
+		}
 	case err == pow.ErrCancelled || err == powv2.ErrCancelled:
 		result = "cancelled"
 	default:
@@ -284,6 +303,23 @@ func genC13(g *G) {
 				}
 				trace, result, leaked, elapsed := tracedMineV2(w, make([]byte, dl), t, -1)
 				g.emit("mine.trace", itoa(w), trace, result, "invalid")
+				g.emit("mine.runtime", mineRuntime(result, leaked, elapsed, false))
+			}
+		}
+	}
+	// many workers on targets just above a power of three (for 8 data bytes: 16·t > 3^k), where v2's lane test takes its
+	// slow path (exact comparison of candidate lanes) in most batches: every worker does so within its first batches,
+	// concurrently with the others.  Run without the trace sink, so that nothing but the implementation's own
+	// synchronisation orders the workers (for the race detector run).
+	crowd := 6
+	if g.thorough {
+		crowd = 30
+	}
+	for r := 0; r < crowd; r++ {
+		for _, ver := range []string{"v1", "v2"} {
+			for _, t := range []float64{6, 16, 46} {
+				w := []int{4, 8, 16}[r%3]
+				_, result, leaked, elapsed := tracedMine(ver, w, g.r.bytes(8), t, -1, false)
 				g.emit("mine.runtime", mineRuntime(result, leaked, elapsed, false))
 			}
 		}
